@@ -140,7 +140,7 @@ def run_prot(prop, tier, seed, fail=False):
         res.count(c.cls)
         i = impl.get(c.id, ["missing"])[0]
         m = model.get(c.id, ["n/a"])[0]
-        if "fillfrom:" in c.line or " serde:" in c.line or " stacklock" in c.line or " clonefrom:" in c.line or " panicdrop" in c.line:      # suffix fills / serde decoding are not operations of the Lean model: judged by the predicate alone
+        if "fillfrom:" in c.line:      # suffix fills / serde decoding are not operations of the Lean model: judged by the predicate alone
             m = "n/a"
         if m == "bad-op":
             m = "n/a"; res.extra["model_unsupported"] = res.extra.get("model_unsupported", 0) + 1
